@@ -49,7 +49,7 @@ def run_c19(case):
     """returns observation dict"""
     from vloop import VLoop
     hlp = _setup()
-    retry_on = {None: None, 'L': (ListedErr,), 'LT': (ListedErr, TimeoutError)}[case['retry_on']]
+    retry_on = {None: None, 'L': (ListedErr,), 'LT': (ListedErr, TimeoutError), 'E': ()}[case['retry_on']]
     atts = case['atts']
     obs = {'starts': [], 'ends': [], 'raised': {}}
     caller = {}
@@ -149,7 +149,7 @@ def gen_c19(rng):
     timeout = rng.choice([0.25, 0.5, 1.0])
     wait = rng.choice([0, 1 / 64, 1 / 16, 1 / 4, 1 / 2, 1.0])
     bf = rng.choice([1.0, 1.0, 2.0, 1.5, 0.5])
-    retry_on = rng.choice([None, 'L', 'LT'])
+    retry_on = rng.choice([None, 'L', 'LT', None, 'L', 'LT', 'E'])    # 'E': the empty tuple - nothing is listed
     atts = []
     for k in range(retries + 2):
         kinds = ['ok', 'L', 'L', 'L', 'O', 'O']
@@ -170,6 +170,8 @@ def gen_c19(rng):
 def model_line_c19(i, case):
     def tok(a):
         kind = a[0]
+        if kind == 'L' and case['retry_on'] == 'E':
+            return 'U0'         # with an empty retry_on no exception type is listed
         return {'ok': 'ok0', 'L': 'L0', 'U': 'U0', 'O': 'O', 'C': 'C'}[kind]
     toks = []
     for k, a in enumerate(case['atts']):
@@ -464,7 +466,7 @@ def decide(prop, tier, seed, gate, my_thms, known, t0, replay):
                 violations.append((case, bad, real, out[i]))
         if cases:
             samples.append({'case': cases[0], 'model': out.get(0)})
-        rule = ('random (retries 0-4, wait, backoff in {1,2,1.5,0.5}, timeout, retry_on in {None, (Listed,), (Listed, TimeoutError)}) x per-attempt '
+        rule = ('random (retries 0-4, wait, backoff in {1,2,1.5,0.5}, timeout, retry_on in {None, (Listed,), (Listed, TimeoutError), ()}) x per-attempt '
                 'outcomes (ok / listed / unlisted / overrun / cancelled, durations up to just below the timeout) + cancellation during a backoff wait; '
                 'non-trivial: at least two calls; distinct: (retries, retry_on, outcome prefix)')
         nval = len(cases) - len(violations) - len(diverged)
